@@ -29,7 +29,7 @@ import numpy as np
 from scipy.spatial.transform import Rotation as SciPyRotation
 from tqdm import tqdm
 
-from orix.quaternion.orientation_region import OrientationRegion
+from orix.quaternion.orientation_region import OrientationRegion, get_proper_groups
 from orix.quaternion.rotation import Rotation
 from orix.quaternion.symmetry import C1, Symmetry, _get_unique_symmetry_elements
 from orix.vector import Miller
@@ -375,9 +375,14 @@ class Misorientation(Rotation):
         [ 0.      1.      0.      0.    ]]
         """
         Gl, Gr = self._symmetry
-        symmetry_pairs = iproduct(Gl, Gr)
+        # Equivalent (proper) misorientations are obtained with the
+        # proper groups the orientation region is constructed from
+        Gl_proper, Gr_proper = get_proper_groups(Gl, Gr)
+        symmetry_pairs = iproduct(Gl_proper, Gr_proper)
         if verbose:
-            symmetry_pairs = tqdm(symmetry_pairs, total=Gl.size * Gr.size)
+            symmetry_pairs = tqdm(
+                symmetry_pairs, total=Gl_proper.size * Gr_proper.size
+            )
 
         orientation_region = OrientationRegion.from_symmetry(Gl, Gr)
         o_inside = self.__class__.identity(self.shape)
